@@ -116,9 +116,12 @@ type quoteLayout struct {
 // buildQuote assembles a well-formed quote (random measurements and keys; the
 // signatures are not valid, which the binary parser does not look at).
 func buildQuote(r *prng.R) quoteLayout {
-	var l quoteLayout
 	v4 := r.Chance(60)
-	tdx := v4 && r.Chance(50)
+	return buildQuoteOpt(r, v4, v4 && r.Chance(50), r.Intn(6))
+}
+
+func buildQuoteOpt(r *prng.R, v4, tdx bool, cdChoice int) quoteLayout {
+	var l quoteLayout
 	put16 := func(v uint16) { l.b = binary.LittleEndian.AppendUint16(l.b, v) }
 	put32 := func(v uint32) { l.b = binary.LittleEndian.AppendUint32(l.b, v) }
 	mark := func(w int, val uint64) {
@@ -192,7 +195,7 @@ func buildQuote(r *prng.R) quoteLayout {
 	cdtOff := len(qe)
 	var cdt uint16
 	var cd []byte
-	switch r.Intn(6) {
+	switch cdChoice {
 	case 0, 1:
 		cdt, cd = uint16(1+r.Intn(3)), r.Bytes(404)
 		l.origin += "-ppid"
@@ -239,6 +242,9 @@ func buildQuote(r *prng.R) quoteLayout {
 var quoteSeeds [][]byte
 
 func loadQuoteSeeds() {
+	if len(quoteSeeds) > 0 {
+		return
+	}
 	repo := os.Getenv("VERIF_REPO")
 	if repo == "" {
 		repo = "/repo"
@@ -291,4 +297,108 @@ func genQuoteCase(r *prng.R) Case {
 		c.Data, c.Origin = hex.EncodeToString(b), "random"
 	}
 	return c
+}
+
+// quoteBoundaries returns the structural offsets of a (well-formed) quote computed from its bytes:
+// header end, report body end, signature length field, signature / key, the v4 certification tuple,
+// QE report, QE signature, authentication data size and data, certification data type / size / end.
+func quoteBoundaries(b []byte) []int {
+	cuts := []int{0, 2, 4, 12, 28, 48}
+	if len(b) < 48 {
+		return cuts
+	}
+	ver := binary.LittleEndian.Uint16(b)
+	off := 48 + 384
+	if ver == 4 && binary.LittleEndian.Uint32(b[4:]) == 0x81 {
+		off = 48 + 584
+		cuts = append(cuts, 48+120, 48+128)
+	}
+	cuts = append(cuts, off, off+4)
+	off += 4
+	cuts = append(cuts, off+64, off+128)
+	off += 128
+	if ver == 4 {
+		cuts = append(cuts, off+2, off+6)
+		off += 6
+	}
+	cuts = append(cuts, off+384, off+448, off+450)
+	off += 448
+	if off+2 <= len(b) {
+		auth := int(binary.LittleEndian.Uint16(b[off:]))
+		off += 2 + auth
+		cuts = append(cuts, off, off+2, off+6)
+		if off+6 <= len(b) {
+			cds := int(binary.LittleEndian.Uint32(b[off+2:]))
+			cuts = append(cuts, off+6+cds)
+		}
+	}
+	return append(cuts, len(b))
+}
+
+// quoteBoundaryCases: DETERMINISTIC truncations of synthetic quotes of every form and of the
+// shipped test vectors: every prefix length within +-w bytes of every structural boundary.
+func quoteBoundaryCases() []Case {
+	var out []Case
+	r := prng.New(0xb0d) // fixed: the set does not depend on the run's seed
+	add := func(b []byte, cuts []int, w int, origin string) {
+		// offset of the signature data (just past the 4-byte signature length field)
+		sigStart := 48 + 384 + 4
+		v4 := len(b) >= 2 && binary.LittleEndian.Uint16(b) == 4
+		if v4 && len(b) >= 8 && binary.LittleEndian.Uint32(b[4:]) == 0x81 {
+			sigStart = 48 + 584 + 4
+		}
+		seen := map[int]bool{}
+		for _, c := range cuts {
+			ww := w
+			if c < 430 || (c > sigStart+8 && c < sigStart+576) {
+				// below the minimum quote length / minimum signature length every prefix is refused
+				// by the first check of that layer: the boundary itself is enough
+				ww = 0
+			}
+			for d := -ww; d <= ww; d++ {
+				n := c + d
+				if n < 0 || n > len(b) || seen[n] {
+					continue
+				}
+				seen[n] = true
+				if n <= sigStart || d == 0 {
+					out = append(out, Case{Kind: "quote", Data: hex.EncodeToString(b[:n]), Trailing: n%2 == 1, Origin: "boundary:" + origin})
+				}
+				if n > sigStart {
+					// consistent truncation: the declared signature length (and the v4 certification
+					// tuple size) are rewritten to what is left, so that the parsers behind the
+					// length check see the truncated signature
+					t := append([]byte{}, b[:n]...)
+					binary.LittleEndian.PutUint32(t[sigStart-4:], uint32(n-sigStart))
+					if v4 && n >= sigStart+134 {
+						binary.LittleEndian.PutUint32(t[sigStart+130:], uint32(n-sigStart-134))
+					}
+					out = append(out, Case{Kind: "quote", Data: hex.EncodeToString(t), Origin: "boundary-consistent:" + origin})
+				}
+			}
+		}
+	}
+	for _, v := range []struct {
+		v4, tdx bool
+		cd      int
+	}{{false, false, 0}, {false, false, 2}, {true, false, 4}, {true, true, 0}, {true, true, 2}} {
+		l := buildQuoteOpt(r, v.v4, v.tdx, v.cd)
+		add(l.b, append(l.cuts, quoteBoundaries(l.b)...), 4, l.origin)
+	}
+	// the shipped vectors: the structural boundaries all lie in the first ~1.2 KiB
+	loadQuoteSeeds()
+	for i, b := range quoteSeeds {
+		if i >= 3 {
+			break
+		}
+		cuts := quoteBoundaries(b)
+		var early []int
+		for _, c := range cuts {
+			if c <= 1400 {
+				early = append(early, c)
+			}
+		}
+		add(b, early, 2, fmt.Sprintf("testdata%d", i))
+	}
+	return out
 }
